@@ -52,6 +52,55 @@ def refAt? (σ : State) (id k : Nat) : Option Nat := (σ.refBuf id)[k]?
 /-- `self.ref_offset = k`: only the record of object `i` changes. -/
 def setOff (σ : State) (i k : Nat) : State := σ.setObj i { σ.obj i with off := k }
 
+/-! ### bit-moving loads / stores (session 5, heapsrc2) -/
+
+/-- `x.extend(v)` on the TvmBitarray held in container `id` (`TvmBitarray.extend`: `check_overflow(len(v))`, then `bitarray.extend`):
+raises (`none`, nothing changed) when the result would exceed 1023 bits, otherwise the container is extended IN PLACE by the ITEMS of
+`v` — `v` itself is only read, the container keeps no reference to it. -/
+def extendBits? (σ : State) (id : Nat) (v : Bits) : Option State :=
+  if (σ.bitBuf id).length + v.length > 1023 then none else some (σ.setB id (σ.bitBuf id ++ v))
+
+/-- `x += y` on the list held in container `id` (`list.__iadd__`): extended IN PLACE by the ELEMENTS of the list in container `src`
+(the objects themselves); the pointer `x` stays, `y` is only read. -/
+def extendRefs (σ : State) (id src : Nat) : State := σ.setR id (σ.refBuf id ++ σ.refBuf src)
+
+/-- `x[:k]` (`k ≥ 0`) of the bit array held in container `id`: a NEW array holding the first `k` bits (fewer if `x` is shorter). -/
+def sliceBits (σ : State) (id k : Nat) : State × Nat := (σ.allocB ((σ.bitBuf id).take k), σ.nBit)
+
+/-- `del x[:k]` (`k ≥ 0`) on the TvmBitarray held in container `id` (`TvmBitarray.__delitem__`: `check_underflow(k)` - for `k = 0`
+of the whole length, which always passes - then `bitarray.__delitem__`): raises when fewer than `k` bits are there, otherwise the
+first `k` bits are removed IN PLACE. -/
+def delBits? (σ : State) (id k : Nat) : Option State :=
+  if (σ.bitBuf id).length < k then none else some (σ.setB id ((σ.bitBuf id).drop k))
+
+/-- `x.append(b)` / `x.fill()` on the PLAIN bit array held in container `id`: IN PLACE (one more bit / zero bits up to a multiple of 8) -/
+def appendBit (σ : State) (id : Nat) (b : Bool) : State := σ.setB id (σ.bitBuf id ++ [b])
+def fillBits (σ : State) (id : Nat) : State := σ.setB id (σ.bitBuf id ++ List.replicate ((8 - (σ.bitBuf id).length % 8) % 8) false)
+
+/-- `for i in range(lo, hi): body` with the heap threaded through; `none` = the body raised -/
+def forFuel : Nat → Nat → State → (Nat → State → Option State) → Option State
+  | 0, _, σ, _ => some σ
+  | n + 1, i, σ, f => (f i σ).bind fun σ' => forFuel n (i + 1) σ' f
+def forRange (lo hi : Nat) (σ : State) (f : Nat → State → Option State) : Option State := forFuel (hi - lo) lo σ f
+
+/-- `bitarray.util.ba2int(v, signed=False)`: raises on an empty array.  `int2ba(v, n, signed=False)`: raises for `n = 0` and for `v`
+outside `[0, 2^n)`.  (The same value functions as `SOp.ba2intU` / `BOp.int2baU` of Model/Builder.lean, C03; repeated here because that
+file's `Kind` would clash with the heap model's.) -/
+def ba2intU? (v : Bits) : Option Int := if v.isEmpty then none else some (natOfBits v)
+def int2baU? (v : Int) (n : Nat) : Option Bits :=
+  if n = 0 then none else if v < 0 then none else if v.toNat ≥ 2 ^ n then none else some (natToBits n v.toNat)
+
+/-- a call returning a NEW bit array object (`load_bits` / `preload_bits`: the caller now holds an array pointing at container `p`) -/
+def resultBits (σ : State) : Option (State × Nat) → State × Out
+  | none => (σ, .err)
+  | some (σ', p) => (σ'.push { ObjRec.blank with tag := .ubits, bitsId := p }, .obj σ'.nObj)
+
+/-- a call that consumed bits and returns a plain value (`load_uint`: the int) or its receiver (`skip_bits`); the model reports the
+consumed bits `taken` -/
+def resultDrop {α : Type} (σ : State) (taken : Bits) : Option (State × α) → State × Out
+  | none => (σ, .err)
+  | some (σ', _) => (σ', .bits taken)
+
 /-- a mutating call that returns its receiver (`store_*`), as a transition of the heap model (which reports `unit`) -/
 def resultUnit (σ : State) : Option (State × Nat) → State × Out
   | none => (σ, .err)
